@@ -12,6 +12,8 @@
 (*           o   : Seq([g : geometry class, c : Seq(<<column, class>>)])   *)
 (*                 - every object the caller holds, re-projected after     *)
 (*                   this step,                                            *)
+(*           argok : (optional) the step was made through a plotting       *)
+(*                 accessor and that passed on exactly ev's arguments,     *)
 (*           rg, rc : geometry class and columns a FRESH grid returns for  *)
 (*                 the same arguments (the reference) ]                    *)
 (* Classes are small integers assigned by the harness to bitwise-equal     *)
@@ -39,6 +41,8 @@ StepFailed(t, q) ==
         prev == IF q = 1 THEN <<>> ELSE t.steps[q - 1].o
         isEdit == ev.act = "Edit"
     IN (IF ~isEdit /\ s.x # s.rx THEN {"OutcomeOfThisCall"} ELSE {})
+       \* the call went through a plotting accessor: it passed on exactly these arguments (argok)
+       \cup (IF "argok" \in DOMAIN s /\ ~s.x /\ ~s.argok THEN {"AccessorArguments"} ELSE {})
        \cup (IF ~isEdit /\ ~s.x /\ ~s.rx /\ s.r # 0 /\ s.o[s.r].g # s.rg THEN {"GeometryOfThisCall"} ELSE {})
        \cup (IF ~isEdit /\ ~s.x /\ ~s.rx /\ s.r # 0 /\ ColSet(s.o[s.r].c) # ColSet(s.rc) THEN {"DataOfThisCall"} ELSE {})
        \cup (IF \/ Len(s.o) < Len(prev)
